@@ -372,6 +372,22 @@ func runC17(r *core.Run) {
 		w.Begin("render", c)
 		judgeRender(w, c)
 	})
+	r.Parallel("status-sweep", 500, func(w *core.W, rng *rand.Rand, i int) {
+		for _, kind := range []string{"json", "xml", "binary", "text"} {
+			c := genRenderCase(rng)
+			for c.Kind != kind {
+				c = genRenderCase(rng)
+			}
+			c.Status, c.Overlap = 100+i, false
+			if i%7 == 0 {
+				c.Bytes = "" // empty body with a non-200 status
+			}
+			w.Begin("render", c)
+			w.Count("status-sweep")
+			judgeRender(w, c)
+		}
+	})
+	r.GateCounter("status-sweep", 2000)
 	for _, k := range []string{"kind:json", "kind:xml", "kind:binary", "kind:text", "where:app", "where:group", "where:route", "custom-charset", "indented:json", "indented:xml", "overlapping-requests", "content-type-preset"} {
 		r.GateCounter(k, 500)
 	}
